@@ -851,6 +851,23 @@ func (ci *corrInfo) evalCond(v ssa.Value, st *pathFacts, depth int) (bool, bool)
 		default:
 			return false, false
 		}
+		if (x.Op == token.EQL || x.Op == token.NEQ) && curCtx != nil {
+			// an error compared with a sentinel it was assigned from on this path (`err = errMarker` in one branch, `if err ==
+			// errMarker` below the join): the two sides are loads of the same package-level sentinel, which is assigned once
+			lx, ly := ci.leafOn(x.X, st), ci.leafOn(x.Y, st)
+			if ux, ok := lx.(*ssa.UnOp); ok && ux.Op == token.MUL {
+				if uy, ok := ly.(*ssa.UnOp); ok && uy.Op == token.MUL {
+					if gx, ok := ux.X.(*ssa.Global); ok && ux.X == uy.X && !corrInKnownNonNil {
+						corrInKnownNonNil = true
+						stable := curCtx.sentinelNonNil(gx)
+						corrInKnownNonNil = false
+						if stable {
+							return x.Op == token.EQL, true
+						}
+					}
+				}
+			}
+		}
 		a, b := ci.evalVal(x.X, st, depth+1), ci.evalVal(x.Y, st, depth+1)
 		if a.kind == 0 || b.kind == 0 {
 			return false, false
